@@ -127,6 +127,7 @@ def main(argv=None):
   ap.add_argument('--scenario', action='append')
   ap.add_argument('--scale', type=float, default=float(os.environ.get('VERIF_SCALE', '1')))
   ap.add_argument('--no-evidence', action='store_true')
+  ap.add_argument('--only-fuzz', action='store_true', help='development: run only the coverage-guided units (implies --no-evidence)')
   args = ap.parse_args(argv)
   prop = args.prop.upper()
   seed = int(os.environ.get('VERIF_SEED', '1') or '1')
@@ -168,7 +169,7 @@ def _main(args, prop, seed, t0, workdir):
   # ---- plan units
   specs = []
   for s in mod.SCENARIOS:
-    if args.scenario and s.name not in args.scenario:
+    if (args.scenario and s.name not in args.scenario) or args.only_fuzz:
       continue
     n = s.budget[args.tier]
     n = max(1, int(n * args.scale))
@@ -180,6 +181,17 @@ def _main(args, prop, seed, t0, workdir):
           'seed': derive_seed(seed, prop, s.name, sh), 'shard': sh, 'nshards': shards,
           'n': (n + shards - 1) // shards,
       })
+  # supplementary coverage-guided campaigns (atheris), one libFuzzer process per shard with its own corpus directory
+  for s in mod.SCENARIOS:
+    if args.scenario and s.name not in args.scenario:
+      continue
+    runs = (s.fuzz_runs or {}).get(args.tier, 0)
+    if s.decode is not None and runs:
+      nsh = 4 if args.tier == 'quick' else 12
+      for sh in range(nsh):
+        specs.append({'mode': 'fuzz', 'prop': prop, 'scenario': s.name, 'tier': args.tier,
+                      'seed': derive_seed(seed, prop, s.name, 'fuzz', sh), 'shard': sh, 'nshards': nsh,
+                      'runs': max(1, int(runs * args.scale) // nsh), 'instrument': list(s.instrument)})
   # regressions + known-finding probes, each in a fresh process
   regress_dir = os.path.join(HERE, 'regress', prop)
   regress = []
@@ -332,7 +344,7 @@ def _main(args, prop, seed, t0, workdir):
       'violations': len(violations),
       'known_findings_reproduced': [l for l in known_lines],
   }
-  if not args.no_evidence and not args.scenario:
+  if not args.no_evidence and not args.scenario and not args.only_fuzz:
     os.makedirs(os.path.join(HERE, 'evidence'), exist_ok=True)
     tmp = os.path.join(HERE, 'evidence', f'.{prop}.json.tmp')
     with open(tmp, 'w') as f:
@@ -346,6 +358,8 @@ def _main(args, prop, seed, t0, workdir):
         f'inconclusive={inconclusive + unreproduced} wall={wall:.1f}s')
   for sc, ps in per_scenario.items():
     print(f'  scenario {sc}: evaluations={ps["evaluations"]} nontrivial={ps["nontrivial"]}')
+  if extra.get('fuzz_execs') or extra.get('fuzz_unavailable'):
+    print('  coverage-guided (atheris, supplementary): ' + ' '.join(f'{k}={v}' for k, v in sorted(extra.items()) if k.startswith('fuzz_')))
   if violations:
     for path, sc, v in violations:
       print(f'  [{sc}] {v["kind"]}: {v["msg"][:1500]}')
